@@ -2264,3 +2264,53 @@ Proof.
     + replace k with (n + (k - n))%nat by lia. rewrite (sweep_residual_lambda D n [] Hv He Hres t (k - n)).
       simpl. destruct (k - n)%nat; reflexivity.
 Qed.
+(* ================================================================ the fuel of the transcription never runs out *)
+Lemma sweep_level_total : forall fuel lam newc rest, (length rest < fuel)%nat ->
+  exists lam' newc', sweep_level fuel lam newc rest = Some (lam', newc') /\ (length newc' <= length newc + length rest)%nat.
+Proof.
+  induction fuel as [|fuel IH]; intros lam newc rest Hf; [lia|].
+  cbn [sweep_level]. destruct rest as [|c tl].
+  - exists lam, newc. split; auto. lia.
+  - simpl in Hf.
+    destruct (Qle_bool (minus_length (lastpt lam)) (minus_length c) && Qlt_bool (birth_plus_deaths (lastpt lam)) (birth_plus_deaths c)).
+    + destruct (Qlt_bool (minus_length c) (birth_plus_deaths (lastpt lam))).
+      * fold (cross_point (lastpt lam) c). set (P := cross_point (lastpt lam) c).
+        destruct (take_eq_birth P tl newc) as [new1 l1] eqn:T1. cbv beta iota zeta.
+        match goal with |- context [take_dominated ?a ?b ?c] => destruct (take_dominated a b c) as [new3 l2] eqn:T2 end.
+        destruct (take_eq_birth_spec _ _ _ _ _ T1) as [tk1 [N1 [L1 _]]].
+        destruct (take_dominated_spec _ _ _ _ _ T2) as [tk2 [N3 [L2 _]]]. subst.
+        rewrite !app_length in Hf.
+        assert (Hf' : (length l2 < fuel)%nat) by (clear - Hf; lia).
+        destruct (IH (lam ++ [P; c]) (((newc ++ tk1) ++ [P]) ++ tk2) l2 Hf') as [lam' [newc' [E Hl]]].
+        exists lam', newc'. split; auto. unfold pt in *. rewrite !app_length in *. simpl in *. rewrite !app_length. clear - Hl. lia.
+      * destruct (IH (lam ++ [(birth_plus_deaths (lastpt lam), 0); (minus_length c, 0); c]) newc tl ltac:(lia)) as [lam' [newc' [E Hl]]].
+        exists lam', newc'. split; auto. simpl. lia.
+    + destruct (IH lam (newc ++ [c]) tl ltac:(lia)) as [lam' [newc' [E Hl]]].
+      exists lam', newc'. split; auto. rewrite app_length in Hl. simpl in *. lia.
+Qed.
+Lemma one_level_total : forall cps, cps <> [] -> exists F newc, one_level cps = Some (F, newc) /\ (length newc < length cps)%nat.
+Proof.
+  intros [|c0 tl] H; [congruence|]. unfold one_level.
+  destruct (sweep_level_total (S (length (c0 :: tl))) [(- INF, 0); (minus_length c0, 0); c0] [] tl ltac:(simpl; lia)) as [lam' [newc' [E Hl]]].
+  rewrite E. eexists; eexists; split; [reflexivity|]. simpl in *. lia.
+Qed.
+Lemma sweep_all_total : forall fuel d cps acc, (length cps < fuel)%nat -> exists land, sweep_all fuel 0 d cps acc = Some land.
+Proof.
+  induction fuel as [|fuel IH]; intros d cps acc Hf; [lia|].
+  cbn [sweep_all]. destruct cps as [|c0 tl]; [eexists; reflexivity|].
+  destruct (one_level_total (c0 :: tl) ltac:(discriminate)) as [F [newc [E Hl]]]. rewrite E.
+  change (Nat.eqb 0 (S d)) with false. cbv iota. apply IH. simpl in *. lia.
+Qed.
+Theorem construct_total : forall D, exists land, construct D 0 = Some land.
+Proof.
+  intros D. change (construct D 0) with (sweep_all (S (length D)) 0 0 (first_cps D) []).
+  apply sweep_all_total. unfold first_cps. rewrite map_length. pose proof (Permutation_length (sort_bars_perm D)) as E. unfold pt in *. rewrite E. lia.
+Qed.
+
+Theorem landscape_equals_definition : forall D, valid_diagram D -> eps_separated D -> bounded_diagram D ->
+  exists land, construct D 0 = Some land /\
+    forall k t, - INF < t -> t < INF -> exists v, value_at land k t = Some v /\ v == lambda D k t.
+Proof.
+  intros D Hv He Hb. destruct (construct_total D) as [land Hc]. exists land. split; auto.
+  intros k t H0 H1. eapply sweep_eq_lambda; eauto.
+Qed.
